@@ -21,6 +21,9 @@ _KEEP = []           # keep terms alive so ids are not reused
 def reset():
     _ATOMS.clear()
     _MEMO.clear()
+    _FACTOR_CACHE.clear()
+    _FACTOR_VARS.clear()
+    _CANCEL_CACHE.clear()
     del _KEEP[:]
 
 
@@ -275,3 +278,152 @@ def show(p, limit=6):
     for m, c in list(p.items())[:limit]:
         out.append('%s*%s' % (c, '*'.join('%s^%d' % (_ATOMS[v], e) for v, e in m) or '1'))
     return ' + '.join(out) + (' + ...(%d terms)' % len(p) if len(p) > limit else '')
+
+
+def const_value(t):
+    """Fraction c if the term is identically the constant c as a rational
+    function (num == c * den), else None."""
+    try:
+        n, d = ratfun(t)
+    except ZeroDivisionError:
+        return None
+    if not n:
+        return Fraction(0)
+    if len(n) != len(d):
+        return None
+    m0 = next(iter(d))
+    if m0 not in n:
+        return None
+    c = n[m0] / d[m0]
+    for m, v in d.items():
+        if n.get(m) != v * c:
+            return None
+    return c
+
+
+def to_z3(p):
+    """z3 term of a polynomial (atoms mapped back to their terms)."""
+    tot = None
+    for m, c in p.items():
+        term = z3.RealVal(str(c))
+        first = c == 1 and m
+        t = None if first else term
+        for v, e in m:
+            a = _ATOMS[v]
+            for _ in range(e):
+                t = a if t is None else t * a
+        tot = t if tot is None else tot + t
+    return tot if tot is not None else z3.RealVal(0)
+
+
+_FACTOR_CACHE = {}
+_FACTOR_VARS = {}
+
+
+def _pkey(p):
+    return frozenset(p.items())
+
+
+def factor_signature(p):
+    """(sign, [(factor_poly, multiplicity)]) with p == sign * |c| * prod f^m,
+    every factor normalised to leading coefficient +1 (so its own sign is a
+    well-defined atom).  sympy.factor_list over QQ; cached."""
+    k = _pkey(p)
+    r = _FACTOR_CACHE.get(k)
+    if r is not None:
+        return r
+    import sympy
+    atoms = sorted(atoms_of(p))
+    syms = {v: sympy.Symbol('a%d' % i) for i, v in enumerate(atoms)}
+    back = {syms[v]: v for v in atoms}
+    expr = sympy.Integer(0)
+    for m, c in p.items():
+        term = sympy.Rational(c.numerator, c.denominator)
+        for v, e in m:
+            term = term * syms[v] ** e
+        expr += term
+    c, facs = sympy.factor_list(expr)
+    sign = 1 if c > 0 else -1
+    out = []
+    for f, mult in facs:
+        P = sympy.Poly(f, *[syms[v] for v in atoms])
+        q = {}
+        for mon, coeff in P.terms():
+            m = tuple(sorted((atoms[i], e) for i, e in enumerate(mon) if e))
+            q[m] = Fraction(int(coeff.p), int(coeff.q))
+        lead = q[min(q)]
+        if lead < 0:
+            q = p_neg(q)
+            if mult % 2:
+                sign = -sign
+            lead = -lead
+        if lead != 1:
+            q = p_scale(q, 1 / lead)
+        out.append((q, mult))
+    r = (sign, out)
+    _FACTOR_CACHE[k] = r
+    return r
+
+
+def factor_var(q):
+    k = _pkey(q)
+    v = _FACTOR_VARS.get(k)
+    if v is None:
+        v = z3.Real('fac!%d' % len(_FACTOR_VARS))
+        _FACTOR_VARS[k] = v
+    return v
+
+
+def abstract_sign_term(p):
+    """z3 term over factor variables with the same sign as polynomial p
+    (even multiplicities collapse to squares)."""
+    if not p:
+        return z3.RealVal(0)
+    if p_is_const(p):
+        return z3.RealVal(1 if p[()] > 0 else -1)
+    sign, facs = factor_signature(p)
+    t = z3.RealVal(sign)
+    for q, mult in facs:
+        v = factor_var(q)
+        t = t * v
+        if mult % 2 == 0:
+            t = t * v
+    return t
+
+
+_CANCEL_CACHE = {}
+
+
+def cancel(n, d):
+    """(n', d') with n/d == n'/d' in lowest terms (sympy.cancel; cached)."""
+    if d == ONE or not n or p_is_const(d):
+        return n, d
+    k = (_pkey(n), _pkey(d))
+    r = _CANCEL_CACHE.get(k)
+    if r is not None:
+        return r
+    import sympy
+    atoms = sorted(atoms_of(n, d))
+    syms = [sympy.Symbol('a%d' % i) for i in range(len(atoms))]
+    idx = {v: i for i, v in enumerate(atoms)}
+
+    def to_sp(p):
+        e = sympy.Integer(0)
+        for m, c in p.items():
+            t = sympy.Rational(c.numerator, c.denominator)
+            for v, ex in m:
+                t = t * syms[idx[v]] ** ex
+            e += t
+        return e
+
+    def from_sp(e):
+        P = sympy.Poly(e, *syms)
+        q = {}
+        for mon, coeff in P.terms():
+            m = tuple(sorted((atoms[i], ex) for i, ex in enumerate(mon) if ex))
+            q[m] = Fraction(int(coeff.p), int(coeff.q))
+        return q
+    nn, dd = sympy.cancel(to_sp(n) / to_sp(d)).as_numer_denom()
+    r = (from_sp(sympy.expand(nn)), from_sp(sympy.expand(dd)))
+    _CANCEL_CACHE[k] = r
+    return r
